@@ -3,6 +3,8 @@
 //! E1 over inputs only (the metrics draw no random numbers): every pair of vectors over small
 //! sharp alphabets up to a length bound, plus complete structured families up to length 200.
 //! Oracles are the definitions evaluated on exact integer counts (refs.rs).
+//! Round 2 adds nearly-equal and tiny score alphabets for ROC-AUC and small-scale / small-spread-
+//! around-an-offset targets for R^2, MSE, MAE (reference: exact i128 sums on the actual floats).
 
 mod cases;
 mod refs;
